@@ -126,7 +126,7 @@ def run(ctx):
         elif exp[0] == "SYNTAX" and exp[1].startswith("f:") and len(suffix_cases) < (300 if quick else 3000):
             suffix_cases.append((x, r, i))
     # nothing after the offending token influences the message: replace everything after it
-    sfx_lines, sfx_want = [], []
+    sfx_lines, sfx_want, sfx_glued = [], [], []
     for x, r, i in suffix_cases:
         toks, _ = parse_scan(r)
         kindsq = [rd.T[k] for k, _, _, _, _ in toks]
@@ -137,13 +137,23 @@ def run(ctx):
         tail, _ = rd.render(rng, [rng.randrange(22) for _ in range(rng.randrange(0, 6))])
         # ... or by bytes that are not UTF-8 at all (a Latin-1 comment, a truncated or stray multi-byte sequence): still later text
         junk = rng.choice([b"", b"", b" // caf\xe9\n", b"\n\xe2\x82", b" \x80 x", b"\n/* \xff\xfe */", b" \xc3"])
-        sfx_lines.append("-1 " + hx((head + " " + tail).encode() + junk))
+        if rng.random() < 0.15:
+            # a byte that is not UTF-8 directly behind the offending token (recorded finding F30: the token is then never delivered)
+            sfx_lines.append("-1 " + hx(head.encode() + rng.choice([b"\xff", b"\x80", b"\xc3("]) + tail.encode()))
+            sfx_glued.append(True)
+        else:
+            sfx_lines.append("-1 " + hx((head + " " + tail).encode() + junk))
+            sfx_glued.append(False)
         sfx_want.append(unhx(split_out(i)[1].split()[1]))
     if sfx_lines:
         got = ctx.run_impl("parse", sfx_lines)
-        for l, g, w in zip(sfx_lines, got, sfx_want):
+        nf30 = 0
+        for l, g, w, glued in zip(sfx_lines, got, sfx_want, sfx_glued):
             res = split_out(g)[1]
             gm = unhx(res.split()[1]) if res.startswith("ERR ") else res.encode()
+            if gm != w and glued and b"invalid utf-8 character" in gm and any(f["id"] == "F30" for f in known_for("C20")):
+                nf30 += 1
+                continue
             if gm != w:
                 ctx.add_violation("text after the offending token changed the diagnostic",
                                   {"input_hex": l.split()[1], "input": unhx(l.split()[1]).decode("utf-8", "replace"),
